@@ -25,6 +25,12 @@ type C08Plan struct {
 	Haves    [][]int   `json:"haves"` // batches; -1-k = unknown hash k
 	Depth    int       `json:"depth"`
 	Repeat   int       `json:"repeat"`
+	// LateWants arrive with the second request of the session; between the first and the second request the
+	// server's refs change: ref DelRef-1 (index into Refs) is deleted, a new ref is put on commit AddRef-1.
+	// Reachability of a want is judged against the refs as they are when it arrives.
+	LateWants []int `json:"late_wants,omitempty"`
+	DelRef    int   `json:"del_ref,omitempty"`
+	AddRef    int   `json:"add_ref,omitempty"`
 }
 
 func init() {
@@ -57,11 +63,29 @@ func init() {
 			if r.Chance(0.2) {
 				p.Fault = &Fault{Op: "get", Prefix: "com/", Nth: r.Range(1, 40)}
 			}
+			reach := g.Reach()
+			var reachable []int
+			{
+				seen := map[int]bool{}
+				for _, x := range p.Refs {
+					for a := range reach[x] {
+						seen[a] = true
+					}
+				}
+				for i := 0; i < n; i++ {
+					if seen[i] {
+						reachable = append(reachable, i)
+					}
+				}
+			}
 			nw := r.Range(1, 3)
 			for i := 0; i < nw; i++ {
-				if r.Chance(0.8) {
+				switch x := r.Intn(100); {
+				case x < 70:
 					p.Wants = append(p.Wants, Pick(r, p.Refs))
-				} else {
+				case x < 92:
+					p.Wants = append(p.Wants, Pick(r, reachable))
+				default:
 					p.Wants = append(p.Wants, r.Intn(n))
 				}
 			}
@@ -76,6 +100,25 @@ func init() {
 					}
 				}
 				p.Haves = append(p.Haves, batch)
+			}
+			if p.Fault == nil && len(p.Haves) >= 2 && r.Chance(0.25) {
+				// the refs change between the first and the second request, and the second request brings further wants
+				if r.Chance(0.6) {
+					p.DelRef = 1 + r.Intn(len(p.Refs))
+				}
+				if r.Chance(0.6) {
+					p.AddRef = 1 + r.Intn(n)
+				}
+				for k := r.Range(1, 2); k > 0; k-- {
+					switch {
+					case p.DelRef > 0 && r.Chance(0.5):
+						p.LateWants = append(p.LateWants, p.Refs[p.DelRef-1])
+					case p.AddRef > 0 && r.Chance(0.7):
+						p.LateWants = append(p.LateWants, p.AddRef-1)
+					default:
+						p.LateWants = append(p.LateWants, Pick(r, p.Refs))
+					}
+				}
 			}
 			return p
 		},
@@ -144,6 +187,7 @@ func execC08(t *testing.T, raw json.RawMessage, res *Result) {
 	}
 	rs := NewMemRef()
 	reachable := map[int]bool{}
+	var refNames []string
 	for k, x := range p.Refs {
 		name := fmt.Sprintf("heads/b%d", k)
 		if k < len(p.RefKinds) {
@@ -163,8 +207,43 @@ func execC08(t *testing.T, raw json.RawMessage, res *Result) {
 			}
 		}
 		rs.Set(name, sums[x])
+		refNames = append(refNames, name)
 		for a := range anc[x] {
 			reachable[a] = true
+		}
+	}
+	// the refs as they are from the second request on
+	if p.DelRef < 0 || p.DelRef > len(p.Refs) || p.AddRef < 0 || p.AddRef > n || !okIdx(p.LateWants, false) || len(p.LateWants) > 8 ||
+		((len(p.LateWants) > 0 || p.DelRef > 0 || p.AddRef > 0) && (len(p.Haves) < 2 || p.Fault != nil)) {
+		res.Invalid("plan: late wants / ref change")
+		return
+	}
+	reachable2 := map[int]bool{}
+	for k, x := range p.Refs {
+		if k == p.DelRef-1 {
+			continue
+		}
+		for a := range anc[x] {
+			reachable2[a] = true
+		}
+	}
+	if p.AddRef > 0 {
+		for a := range anc[p.AddRef-1] {
+			reachable2[a] = true
+		}
+	}
+	resetRefs := func() {
+		for k, name := range refNames {
+			rs.Set(name, sums[p.Refs[k]])
+		}
+		rs.Delete("heads/added-later")
+	}
+	changeRefs := func() {
+		if p.DelRef > 0 {
+			rs.Delete(refNames[p.DelRef-1])
+		}
+		if p.AddRef > 0 {
+			rs.Set("heads/added-later", sums[p.AddRef-1])
 		}
 	}
 	unknown := func(k int) []byte { return meowSum([]byte(fmt.Sprintf("unknown-%d", k))) }
@@ -176,6 +255,15 @@ func execC08(t *testing.T, raw json.RawMessage, res *Result) {
 		wantSet[x] = true
 		if !reachable[x] || noTable[x] {
 			wantOK = false
+		}
+	}
+	lateWants := make([][]byte, len(p.LateWants))
+	lateOK := true
+	for i, x := range p.LateWants {
+		lateWants[i] = sums[x]
+		wantSet[x] = true // the client knows from the start what it is going to ask for
+		if !reachable2[x] || noTable[x] {
+			lateOK = false
 		}
 	}
 	ancW := map[int]bool{}
@@ -194,8 +282,10 @@ func execC08(t *testing.T, raw json.RawMessage, res *Result) {
 
 	for it := 0; it < rep; it++ {
 		before := w.Steps
+		resetRefs()
 		f := apiutils.NewClosedSetsFinder(st, rs, p.Depth)
 		faultRetried := false
+		lateRefused := false
 		st.Faults = nil
 		if p.Fault != nil {
 			ff := *p.Fault
@@ -208,7 +298,14 @@ func execC08(t *testing.T, raw json.RawMessage, res *Result) {
 		finished := false
 		var procErr error
 		nb := len(p.Haves)
-		for round := 0; round <= nb && !finished; round++ {
+		for round := 0; round <= nb && (!finished || (len(lateWants) > 0 && round == 1)); round++ {
+			reachNow := reachable
+			if round >= 1 {
+				reachNow = reachable2
+			}
+			if round == 1 {
+				changeRefs()
+			}
 			var haves [][]byte
 			haveIdx := map[int]bool{}
 			if round < nb {
@@ -236,6 +333,9 @@ func execC08(t *testing.T, raw json.RawMessage, res *Result) {
 			if round == 0 {
 				wv = wants
 			}
+			if round == 1 && len(lateWants) > 0 {
+				wv = lateWants
+			}
 			acks, err := f.Process(wv, haves, done)
 			if err != nil && p.Fault != nil && p.Fault.Fired > 0 && !faultRetried {
 				// the store read failed: the server-side caller repeats the same request on the same session
@@ -249,6 +349,26 @@ func execC08(t *testing.T, raw json.RawMessage, res *Result) {
 				res.Violate("step-budget", "negotiation used %d store reads after %d rounds (budget %d for %d commits)", w.Steps-before, rounds, budget, n)
 				return
 			}
+			if round == 1 && len(lateWants) > 0 {
+				var uw *apiutils.UnrecognizedWantsError
+				switch {
+				case err != nil && errors.As(err, &uw):
+					if lateOK {
+						res.Violate("want-refused", "wants %v arrive with the second request, after ref %d was deleted and a ref was put on c%d; they are reachable from the refs as they are then, but were refused: %v", p.LateWants, p.DelRef-1, p.AddRef-1, err)
+						return
+					}
+					res.probe("late_want_refused_after_ref_change", 1)
+					lateRefused = true
+				case err == nil && !lateOK:
+					res.Violate("unreachable-want-accepted", "wants %v arrive with the second request, after ref %d was deleted (refs %v) and a ref was put on c%d: they include a commit no ref reaches any more (or one without its table), yet they were accepted", p.LateWants, p.DelRef-1, p.Refs, p.AddRef-1)
+					return
+				case err == nil:
+					res.probe("late_want_accepted_after_ref_change", 1)
+				}
+				if lateRefused {
+					break
+				}
+			}
 			if err != nil {
 				procErr = err
 				break
@@ -259,7 +379,7 @@ func execC08(t *testing.T, raw json.RawMessage, res *Result) {
 					res.Violate("ack-not-a-have", "round %d acked %x which the client did not offer in this round", round, a)
 					return
 				}
-				if !reachable[ai] {
+				if !reachNow[ai] {
 					res.Violate("ack-unreachable", "round %d acked c%d which is not reachable from any server ref", round, ai)
 					return
 				}
@@ -268,6 +388,9 @@ func execC08(t *testing.T, raw json.RawMessage, res *Result) {
 			if len(f.Wants) == 0 {
 				finished = true
 			}
+		}
+		if lateRefused {
+			continue
 		}
 		if procErr != nil {
 			var uw *apiutils.UnrecognizedWantsError
@@ -357,6 +480,21 @@ func execC08(t *testing.T, raw json.RawMessage, res *Result) {
 				}
 				if pp, ok := pos[par]; !ok || pp > i {
 					res.Violate("parent-after-child", "c%d is listed at %d but its parent c%d is neither common nor listed earlier (wants %v commons-closure %v)", ci, i, par, p.Wants, keysOf(A))
+					return
+				}
+			}
+		}
+		// what the client learns are the acks Process returned: closure must hold against those alone
+		ackedClosure := map[int]bool{}
+		for x := range acked {
+			for a := range anc[x] {
+				ackedClosure[a] = true
+			}
+		}
+		for a := range ancW {
+			if !ackedClosure[a] {
+				if _, ok := pos[a]; !ok {
+					res.Violate("closure-incomplete-vs-acks", "c%d is an ancestor of a want, is not listed for sending, and is no ancestor of any commit the server acknowledged to the client (wants %v, acks returned %v, commons kept by the finder %v; repeated after a read error: %v)", a, p.Wants, keysOf(acked), keysOf(commonsTip(f, idx)), faultRetried)
 					return
 				}
 			}
